@@ -13,6 +13,7 @@ import numpy as np
 import z3
 from d3vc.engine import contract
 from d3vc.sym import B, CB
+from d3vc.spec import dot
 from d3vc.zarr import SI, ZTable, zint, _fresh
 from d3vc.loops import LoopSpec
 
@@ -135,4 +136,53 @@ def _(cx):
     cx.prove("kept_faces_distinct", B(z3.ForAll([k, l], z3.Implies(z3.And(k >= 0, k < l, l < n), z3.Select(T, k) != z3.Select(T, l)))))
     cx.prove("face_count_within_original", B(z3.And(n >= 0, n <= zint(N))))
     cx.canary("end_reachable(hypotheses_consistent)", False, strict=True)
+    cx.cover("end")
+
+
+@contract("epa.Polytope.fix_ccw_normal_direction", fn=M + ".Polytope.fix_ccw_normal_direction", props=["C07", "C19"])
+def _(cx):
+    """any face (three vertices and a stored normal), default bias: a face whose normal already points away from the origin (v0.n >= 0)
+    is left untouched; a face whose normal points towards the origin by more than the bias (v0.n < -bias) gets v0 and v1 swapped and the
+    normal negated; nothing else of the polytope is written.  (In between, -bias <= v0.n < 0, either outcome is accepted: the code's
+    tolerance for an origin lying on the face.)"""
+    Polytope = cx.target(M + ".Polytope")
+    bias = 1e-6
+    if cx.mode == "sym":
+        rows = [cx.vec(n) for n in ("v0", "v1", "v2", "nrm")]
+        other = [cx.vec(n) for n in ("o0", "o1", "o2", "o3")]
+        faces = np.array([rows, other], dtype=object)
+    else:
+        g = np.random.default_rng(cx.rng.getrandbits(32))
+        faces = g.normal(size=(2, 4, 3)) * 10 ** g.uniform(-3, 1)
+        if g.random() < 0.5:      # normal almost orthogonal to v0: the interesting band around 0
+            faces[0, 3] -= faces[0, 0] * (faces[0, 3] @ faces[0, 0]) / (faces[0, 0] @ faces[0, 0])
+            faces[0, 3] += faces[0, 0] / (faces[0, 0] @ faces[0, 0]) * g.choice([-3e-6, -1e-6, -5e-7, 0.0, 5e-7, 1e-6, 3e-6])
+        for a in range(4):
+            for b in range(3):
+                cx.values["f%d_%d" % (a, b)] = float(faces[0, a, b])
+    poly = object.__new__(Polytope)
+    poly.max_faces, poly.epsilon, poly.faces, poly.n_faces = 2, 1e-8, faces, 2
+    before = faces.copy()
+    dotp = dot(before[0, 0], before[0, 3])
+    cx.call(poly.fix_ccw_normal_direction, 0)
+    after = poly.faces
+    same = lambda a, b: cx.all([cx.eq(a[i], b[i]) for i in range(3)]) if cx.mode == "sym" else CB(float(np.max(np.abs(np.asarray(a, dtype=float) - np.asarray(b, dtype=float)))))
+    neg = lambda a, b: cx.all([cx.eq(a[i], -b[i]) for i in range(3)]) if cx.mode == "sym" else CB(float(np.max(np.abs(np.asarray(a, dtype=float) + np.asarray(b, dtype=float)))))
+    for r in range(4):
+        cx.prove("other_faces_untouched[%d]" % r, same(after[1, r], before[1, r]), tol=0.0)
+    cx.prove("third_vertex_untouched", same(after[0, 2], before[0, 2]), tol=0.0)
+    if cx.mode == "sym":
+        unchanged = cx.all([same(after[0, r], before[0, r]) for r in range(4)])
+        flipped = cx.all([same(after[0, 0], before[0, 1]), same(after[0, 1], before[0, 0]), neg(after[0, 3], before[0, 3])])
+        cx.prove("outward_face_is_kept", cx.any([cx.lt(dotp, 0.0), unchanged]))
+        cx.prove("inward_face_is_flipped", cx.any([cx.ge(dotp, -bias), flipped]))
+        cx.prove("kept_or_flipped", cx.any([unchanged, flipped]))
+    else:
+        un = max(float(np.max(np.abs(after[0, r] - before[0, r]))) for r in range(4))
+        fl = max(float(np.max(np.abs(after[0, 0] - before[0, 1]))), float(np.max(np.abs(after[0, 1] - before[0, 0]))), float(np.max(np.abs(after[0, 3] + before[0, 3]))))
+        if float(dotp) >= 0.0:
+            cx.prove("outward_face_is_kept", CB(un), tol=0.0)
+        if float(dotp) < -bias:
+            cx.prove("inward_face_is_flipped", CB(fl), tol=0.0)
+        cx.prove("kept_or_flipped", CB(min(un, fl)), tol=0.0)
     cx.cover("end")
